@@ -45,6 +45,12 @@ func ZZ_C14_DeferredCall() {
 	}
 	t := &ast.Task{Task: "t", Location: &ast.Location{Taskfile: "/d/f.yml"}, Vars: ast.NewVars(), Env: ast.NewVars(),
 		Cmds: []*ast.Cmd{{Task: "callee", Vars: callVars, Defer: true}, {Cmd: work}}}
+	if zz.Bool("a_later_deferred_entry_fails_to_render") {
+		// registered after the call, so it runs before it: its rendering error is its own
+		// (q wants a string, L is a list) and must not reach the entries that run after it
+		t.Vars.Set("L", ast.Var{Value: []any{"x"}})
+		t.Cmds = []*ast.Cmd{t.Cmds[0], {Cmd: "echo {{q .L}}", Defer: true}, t.Cmds[1]}
+	}
 	if taskDefines {
 		t.Vars.Set("G", ast.Var{Value: tv})
 	}
